@@ -4,6 +4,8 @@ import json, os
 
 ROOT = os.path.dirname(os.path.dirname(os.path.abspath(__file__)))
 
+SWEEP_NOTE = " Both tiers also run the exhaustive small-scope sweep of this family (all scripts x all schedules for n <= 2, every container, 3 configurations)."
+
 COMMON_NOTE = (
     "Trusted base: the harness (scripted children, adversarial executor, event log, reference models in /verif/harness/src) and "
     "the generators' bounds (tuple arity <= 12, array lengths {0,1,2,3,4,5,8,13}, Vec lengths up to 257, scripts <= 8 steps, one "
@@ -12,10 +14,10 @@ COMMON_NOTE = (
 
 # id -> (technique, level text, design ref, engine)
 CHECKS = {
-    "C01": ("runtime monitoring: online no-lost-wake-up invariant (I1) at quiescent points, Pending-justification (I2), bounded-progress oracle (I6) under a wake-only adversarial executor; real-thread stress under Miri data-race/deadlock detection and ThreadSanitizer",
-            "Every generated schedule (wakes between polls, mid-poll cross wakes, stale/repeated wakers, fresh parent waker per poll, spurious polls) over all families x containers x 3 feature configurations is executed against the real crate; the monitor fires if a woken pending child leaves the latest parent waker silent at a quiescent point, if a combinator reports Pending while it could progress, or if a wake() panics/deadlocks. Thorough adds a small-scope DFS over the decision vector, threads firing wakers natively, under Miri (many seeds) and under TSan.", "5/C01"),
-    "C02": ("runtime monitoring: exactly-once accounting of tracked children/values (I5) with cancellation at random/every poll count and one injected panic; Miri (UB, leaks, double free), ASan+LSan, valgrind memcheck on the same workloads",
-            "Tracked values and children are registered at creation and at drop; after every execution (completion, cancellation after k polls, injected panic) the monitor requires each to be dropped exactly once, every received value to be live and produced by a child, and every owned child to be dropped before drop(combinator) returns. The same workloads with heap-payload values run under Miri in quick, plus ASan/LSan and valgrind in thorough.", "5/C02"),
+    "C01": ("runtime monitoring: online no-lost-wake-up invariant (I1) at quiescent points, Pending-justification (I2), bounded-progress oracle (I6) under a wake-only adversarial executor (random + exhaustive small-scope schedules); real threads firing wakers under Miri data-race/deadlock detection and ThreadSanitizer",
+            "Every generated schedule (wakes between polls, mid-poll cross wakes, stale/repeated wakers, fresh parent waker per poll, spurious polls) over all families x containers x 3 feature configurations is executed against the real crate; the monitor fires if a woken pending child leaves the latest parent waker silent at a quiescent point, if a combinator reports Pending while it could progress, or if a wake() panics/deadlocks. Both tiers add an exhaustive small-scope sweep (every script and every schedule incl. mid-poll fires for all 42 flat shapes with n <= 2) and engine T: real threads firing the wakers natively and under Miri (data races, deadlock); thorough adds the n <= 3 budgeted sweep and ThreadSanitizer.", "5/C01, 13"),
+    "C02": ("runtime monitoring: exactly-once accounting of tracked children/values (I5) under cancellation at random and at every poll count and a panic injected at random and at every leaf poll; Miri (UB, leaks, double free), ASan+LSan, valgrind memcheck on the same workloads",
+            "Tracked values and children are registered at creation and at drop; after every execution (completion, cancellation after k polls, injected panic) the monitor requires each to be dropped exactly once, every received value to be live and produced by a child, and every owned child to be dropped before drop(combinator) returns. A systematic sweep re-runs each of its cases with a drop after EVERY poll count and a panic at EVERY leaf poll. The same workloads with heap-payload values run under Miri in quick, plus ASan/LSan, valgrind and engine T (drop racing with wake-ups from other threads, natively and under Miri) in thorough.", "5/C02, 13"),
     "C03": ("runtime monitoring: poll-discipline invariant (I3) asserted inside every scripted child poll (phase + completion state)",
             "Each child poll is checked online: never after the child completed or was dropped, only while a harness-issued poll of the owning combinator is in progress (never in construction, group operations, or drop), never after the combinator produced its final result.", "5/C03"),
     "C20": ("runtime monitoring: I2 (every owned, not-held-back child polled once Pending is returned) + progress oracle I6 with forced never-completing siblings",
@@ -27,11 +29,11 @@ CHECKS = {
     "C08": ("runtime monitoring: per-poll reference model of merge + whole-run exactly-once / per-input order check over unique item ids", "Per-poll model (first observed item is yielded, None exactly when the last input ends, zero inputs end at once) plus multiset and order checks.", "5/C08"),
     "C09": ("runtime monitoring: per-poll reference model of zip (row buffer, hold-back, end with the shortest input) + items-taken bound", "Per-poll row model, the hold-back rule asserted inside child polls, at most rows+1 items taken per input, unmatched items dropped (I5).", "5/C09"),
     "C10": ("runtime monitoring: per-poll reference model of chain (cursor; only the current input may be polled)", "Cursor model; polling a non-current input is flagged inside the child's poll.", "5/C10"),
-    "C11": ("runtime monitoring: operation-history checking of FutureGroup against a key->member model after every operation and every poll", "Random histories of insert/remove/reserve/extend/poll/wake with heavy slot reuse; set view (len/is_empty/contains_key/capacity) compared after every operation; yields compared with the per-poll model, keyed and plain.", "5/C11"),
+    "C11": ("runtime monitoring: operation-history checking of FutureGroup against a key->member model after every operation and every poll", "Random histories of with_capacity/new/from_iter, insert/remove/reserve/extend (iterators with exact, loose and absent size hints)/poll/wake with heavy slot reuse; set view (len/is_empty/contains_key/capacity) compared after every operation; yields compared with the per-poll model, keyed and plain.", "5/C11"),
     "C12": ("runtime monitoring: operation-history checking of StreamGroup against a key->member model after every operation and every poll", "As C11 for streams: items exactly once and in member order, members forgotten and dropped in the poll they end or at removal.", "5/C12"),
     "C13": ("runtime monitoring: closure-invocation log + live-closure-future gauge checked against the effective limit at every creation; structured-completion and cancellation checks", "ConcurrentStream pipelines with scripted source and per-item futures; exactly one closure call per item, gauge <= limit at every creation, all closure futures Done at resolution, all dropped when the operation is dropped early.", "5/C13"),
     "C14": ("runtime monitoring: outcome oracle for try_for_each / collect<Result> over the recorded error events and source-item events", "Ok only if no work future returned Err and every item was processed; Err carries an error some future returned; no source item taken after the first error event; in-flight futures dropped with the operation.", "5/C14"),
-    "C15": ("runtime monitoring: adapter-stack oracle (multiset of collected items, map closure counts, enumerate index = source position, take = first min(n,len))", "29 adapter stacks x 5 terminals x 2 sources; unique item positions make multiset and index checks unambiguous.", "5/C15"),
+    "C15": ("runtime monitoring: adapter-stack oracle (multiset of collected items, map closure counts, enumerate index = source position, take = first min(n,len))", "29 adapter stacks x 5 terminals x 2 sources x 4 legal size_hint reports of the source; unique item positions make multiset and index checks unambiguous.", "5/C15"),
     "C16": ("runtime monitoring: selective-polling invariant (I4) asserted inside every child poll in the std configuration", "A child that last returned Pending may be polled only if a waker handed to it (or to an earlier occupant of its group slot) fired since its previous poll started; spurious polls and single-child wake-ups are generated on purpose, sizes up to 257.", "5/C16"),
     "C17": ("runtime monitoring: provenance log of merge yields; sliding-window fairness oracle for an always-ready input", "One input always has an item; every window of N consecutive yields must contain it, for every position, container, N and configuration.", "5/C17"),
     "C19": ("runtime monitoring: event-log oracle for wait_until (no inner poll before the deadline resolves, no deadline poll after, same-poll hand-over)", "Scripted deadline and inner future/stream; ordering rules asserted inside child polls and per poll.", "5/C19"),
@@ -39,6 +41,9 @@ CHECKS = {
 
 checks = []
 for pid, (tech, text, ref) in CHECKS.items():
+    if pid in ("C04", "C05", "C06", "C07", "C08", "C09", "C10"):
+        text += SWEEP_NOTE
+        tech += "; exhaustive small-scope schedule enumeration"
     checks.append(dict(
         property_id=pid,
         quick_cmd=f"./check {pid} quick",
@@ -62,10 +67,10 @@ manifest = dict(
         add_only=True,
     ),
     engines=[
-        dict(name="fcv", path="harness/", serves_properties=list(CHECKS.keys()), kind_free_text="Rust harness crate: scripted children + adversarial executor + event log + reference models (engines A static shapes, B group histories, C concurrent-stream pipelines, T real threads), run natively, under Miri, ASan, valgrind and TSan by ./check"),
+        dict(name="fcv", path="harness/", serves_properties=list(CHECKS.keys()), kind_free_text="Rust harness crate: scripted children + adversarial executor + event log + reference models (engines A static shapes, B group histories, C concurrent-stream pipelines, T real threads), run natively, under Miri, ASan, valgrind and TSan by ./check; fcv dfs = exhaustive small-scope sweep, fcv allk = every-crash-point sweep"),
     ],
     checks=checks,
-    notes="Runtime monitoring only. ./check rebuilds the harness against /repo's working tree (content-hash keyed). Two genuine defects were repaired in /repo with 'fix:' commits (see known_findings.json and DESIGN.md section 8).",
+    notes="Runtime monitoring only. ./check rebuilds the harness against /repo's working tree (content-hash keyed). Three genuine defects were repaired in /repo with 'fix:' commits (see known_findings.json and DESIGN.md section 8).",
     not_applicable=[
         dict(property_id="C18", reason="Send/Sync auto-trait preservation is a type-level fact decided by the trait solver for every instantiation; no execution observes it and a regression is observationally indistinguishable at run time (DESIGN.md section 7). Deciding it needs a compile-time probe, which is a different technique family."),
     ],
